@@ -799,6 +799,7 @@ theorem outIndex_current [DecidableEq L] (labels : List L) (n : Nat) (m : Mat) (
       (match o, m with
         | .pandas, .pandas => .labels (rowsAt labels (keptPositions n d))
         | .pandas, .narwhals => .labels (rowsAt labels (keptPositions n d))
+        | .narwhals, .narwhals => .labels (rowsAt labels (keptPositions n d))
         | .pandas, .arrow => .range (n - d.length)
         | _, _ => .none) := by
   have hdl : ∀ i ∈ d, i < labels.length := by rw [hl]; exact hd
@@ -816,6 +817,11 @@ theorem outIndex_current [DecidableEq L] (labels : List L) (n : Nat) (m : Mat) (
     · simp [h, hempty h]
     · simp [h]
   · -- pandas output, NarwhalsMaterializer over a pandas frame
+    simp only [outIndex, current, hpos]
+    by_cases h : d.isEmpty = true
+    · simp [h, hempty h]
+    · simp [h]
+  · -- narwhals output (the native pandas frame), NarwhalsMaterializer over a pandas frame
     simp only [outIndex, current, hpos]
     by_cases h : d.isEmpty = true
     · simp [h, hempty h]
